@@ -35,7 +35,7 @@ def build(kind):
     os.makedirs(BUILD, exist_ok=True)
     src = os.path.join(cfront.repo(), "src")
     out = os.path.join(BUILD, "libreplay_%s_%d.so" % (kind, os.getpid()))
-    flags = ["-O2"] if kind == "plain" else ["-O1", "-g", "-fsanitize=address,undefined", "-fno-sanitize-recover=all"]
+    flags = ["-O2"] if kind == "plain" else ["-O1", "-g", "-fsanitize=address,undefined,float-cast-overflow", "-fno-sanitize-recover=all"]
     cmd = ["gcc"] + flags + ["-fopenmp", "-fPIC", "-shared", "-DNDEBUG", "-D__INTEL_COMPILER=1", "-w", "-I" + src] + \
           [os.path.join(src, s + ".c") for s in SRCS] + ["-o", out, "-lm"]
     p = subprocess.run(cmd, capture_output=True, text=True)
